@@ -13,6 +13,8 @@ pub trait Merge {
         let items: Vec<Self> = items.into_iter().collect();
         let original_len = items.len();
         let merged = Self::second_pass_merge(items);
+        #[cfg(feature = "verif-trace")]
+        crate::verif::count_merge_pass(original_len, merged.len());
         if merged.len() < original_len {
             Self::merge_recursive(merged)
         } else {
@@ -29,6 +31,8 @@ pub trait Merge {
         let mut new_groups: Vec<Self> = vec![];
         for item in items.into_iter() {
             if !new_groups.iter_mut().rev().any(|new_group| {
+                #[cfg(feature = "verif-trace")]
+                crate::verif::count_merge_attempt();
                 if let Some(new_merged) = new_group.merge(&item) {
                     *new_group = new_merged;
                     true
